@@ -71,7 +71,13 @@ func genCkpt(rng *rand.Rand, tier string, emit func(string)) {
 	}
 	for s := 0; s < sessions; s++ {
 		eng := []string{"pebble", "rocksdb", "pebble"}[rng.Intn(3)]
-		emit(fmt.Sprintf("open %s %d", eng, []int{20, 20, 1, 2, 3}[rng.Intn(5)]))
+		burst := ""
+		if s%4 == 1 {
+			// a small memtable and, every 23rd log entry, a burst of HyperLogLog writes that stay in the write-back cache:
+			// closing the engine (restore) flushes them and rolls the memtable / WAL at that very moment
+			burst = " burst"
+		}
+		emit(fmt.Sprintf("open %s %d%s", eng, []int{20, 20, 1, 2, 3}[rng.Intn(5)], burst))
 		nb := 0
 		for i := 0; i < 14; i++ {
 			switch r := rng.Intn(10); {
@@ -129,6 +135,7 @@ func newCkpt(c *Ctx) func(string) string {
 		sum         string
 	}
 	var bks []bk
+	burst := false     // session with a 16 kB memtable and HyperLogLog bursts (see genCkpt)
 	keep := 20         // KeepBackup of the session
 	lastRecorded := -1 // position in bks of the checkpoint of the newest RECORDED raft snapshot
 	sums := map[string]string{}
@@ -161,6 +168,12 @@ func newCkpt(c *Ctx) func(string) string {
 			cv, _ := db.KVGet([]byte("t:c" + k))
 			pf, _ := db.PFCount(time.Now().UnixNano(), []byte("t:p"+k))
 			fmt.Fprintf(h, "%s kv=%s h=%d/%s l=%d z=%d c=%s pf=%d;", k, v, n, f, l, z, cv, pf)
+		}
+		if burst {
+			for k := 0; k < 30; k++ {
+				pf, _ := db.PFCount(time.Now().UnixNano(), []byte(fmt.Sprintf("t:pb%02d", k)))
+				fmt.Fprintf(h, "pb%02d=%d;", k, pf)
+			}
 		}
 		return fmt.Sprintf("%x", h.Sum(nil))[:16]
 	}
@@ -209,6 +222,10 @@ func newCkpt(c *Ctx) func(string) string {
 			cfg.ExpirationPolicy = common.WaitCompact
 			cfg.DataVersion = common.ValueHeaderV1
 			cfg.KeepBackup = 20
+			burst = len(f) > 3 && f[3] == "burst"
+			if burst {
+				cfg.WriteBufferSize = 16 * 1024
+			}
 			if len(f) > 2 {
 				if kb, err := strconv.Atoi(f[2]); err == nil && kb > 0 {
 					cfg.KeepBackup = kb
@@ -250,6 +267,16 @@ func newCkpt(c *Ctx) func(string) string {
 				k := fmt.Sprintf("k%03d", counter%17)
 				keys[k] = true
 				ts := int64(1600000000000000000) + int64(index)*1000
+				if burst && index%23 == 0 {
+					for b := 0; b < 30; b++ {
+						elems := make([][]byte, 0, 2000)
+						for e := 0; e < 2000; e++ {
+							elems = append(elems, []byte(fmt.Sprintf("e-%d-%d-%d", index, b, e)))
+						}
+						db.PFAdd(ts, []byte(fmt.Sprintf("t:pb%02d", b)), elems...)
+					}
+					c.Note("ckpt-hll-burst")
+				}
 				switch counter % 5 {
 				case 0:
 					db.KVSet(ts, []byte("t:"+k), []byte(fmt.Sprintf("v%d", counter)))
